@@ -35,7 +35,9 @@ inside a loop that rebinds neither the list nor the value is followed by leaving
 test, so that it cannot run twice with the same operands (ValueError); (key domain) the factor-keyed candidate
 {**crossing instance, **source combination} of the combinatoric counter is read only with factors of partitions that
 are included in the partitions it was built over, decided in a partition algebra evaluated from the DesignPartitions
-getters' own source (cells over: in the main crossing / complex window / derived / source).
+getters' own source (cells over: in the main crossing / complex window / derived / source); (backend unsat) the
+pyunigen sampling call, which ends the process on an unsatisfiable formula, is dominated by a satisfiability test with
+an empty early return, and the pycmsgen adapter maps 'no model' to the empty result.
 """
 NOT_DECIDED = "KeyError / IndexError from data-dependent indices (layout arithmetic, user level names), exceptions raised inside user predicates, solver processes that fail, and designs that the constructors should have refused."
 
@@ -777,6 +779,36 @@ def rule_key_domain(ctx):
     ctx.require(n_reads >= 2, "only %d factor-keyed reads of merged candidates found (2 confirmed by hand in __count_solutions)" % n_reads)
 
 
+# calls into native sampler libraries that end the whole Python process (exit()) when the formula has no model; confirmed
+# by running pyunigen on an unsatisfiable design: no exception can be caught, the interpreter is gone
+PROCESS_ENDING_ON_UNSAT = {"sampler.sample": ("tools.unigen:call_unigen_python", "pyunigen.Sampler.sample")}
+
+
+def rule_backend_unsat(ctx):
+    """A design without valid sequences is an accepted design: every sampler returns an empty list for it.  A backend
+    call that ends the process on an unsatisfiable formula must therefore be dominated by a satisfiability test with an
+    early empty return (the sibling adapters get the verdict from the solver call itself)."""
+    R = "C08.backend-unsat"
+    for call_text, (ref, what) in PROCESS_ENDING_ON_UNSAT.items():
+        f = ctx.fn(ref)
+        F = Facts(f)
+        sites = [st for st in F.stmts if not isinstance(st, (ast.For, ast.While, ast.If, ast.Try, ast.With)) and
+                 any(isinstance(c, ast.Call) and dotted(c.func) == call_text for c in ast.walk(st))]
+        ctx.require(len(sites) >= 1, "%s: call of %s not found" % (f.fq, what))
+        for st in sites:
+            conds = F.conds(st)
+            ok = any(("is_satisfiable(" in c or ".solve(" in c) for c in conds)
+            ctx.check(ok, R, f, "%s guarded by %s" % (what, [c for c in conds if "satisf" in c or "solve" in c]),
+                      "%s is reached only after a satisfiability test that returns the empty result for an unsatisfiable formula" % what,
+                      "%s is called without a preceding satisfiability test (path condition %s): pyunigen ends the whole Python process when the formula is "
+                      "unsatisfiable, so synthesize_trials(block, n, UniGen) on a design without valid sequences never returns (CMSGen and IterateSATGen return [])" % (what, conds), st)
+    # the sibling adapters map 'no model' to an empty result themselves
+    cm = ctx.fn("tools.unigen:call_cmsgen_python")
+    Fc = Facts(cm)
+    ctx.check(any(v == "''" and any(".solve()" in c for c in conds) for conds, v in Fc.cases()), R, cm, "pycmsgen: not sat -> ''",
+              "call_cmsgen_python returns the empty result when the solver reports no model", "call_cmsgen_python no longer maps 'no model' to the empty result: %s" % Fc.cases())
+
+
 def check(ctx):
     repo = ctx.repo
     cg = CallGraph(repo)
@@ -792,6 +824,7 @@ def check(ctx):
     rule_fill_order(ctx)
     rule_remove_once(ctx, reach)
     rule_key_domain(ctx)
+    rule_backend_unsat(ctx)
 
     mod = sys.modules[__name__]
     C = "sweetpea/_internal/constraint.py"
@@ -817,6 +850,9 @@ def check(ctx):
     control(ctx, mod, "derived sources are not filled into the merged candidate",
             lambda s: variants.in_function(s, "sweetpea/_internal/sampling_strategy/random.py", "UCSolutionEnumerator.__count_solutions",
                                            "merged_levels[df] = l", "pass"), "C08.key-domain")
+    control(ctx, mod, "pyunigen is called without asking for satisfiability first",
+            lambda s: variants.in_function(s, "sweetpea/_internal/core/generate/tools/unigen.py", "call_unigen_python",
+                                           "    if cryptominisat_is_satisfiable(input_file, docker_mode=False) is False:\n        return \"\"\n", "    pass\n"), "C08.backend-unsat")
     ctx.min_instances("C08.emptiness", 10)
     ctx.min_instances("C08.window-bound", 4)
     ctx.min_instances("C08.divisor", 25)
@@ -825,3 +861,4 @@ def check(ctx):
     ctx.min_instances("C08.fill-order", 3)
     ctx.min_instances("C08.key-domain", 5)
     ctx.min_instances("C08.remove-once", 1)
+    ctx.min_instances("C08.backend-unsat", 2)
